@@ -1,12 +1,14 @@
-(* Tie theorems (encrypt side: cek_encrypt, content_encrypt): the regenerated syntax (gen/F_e2e.v), run in the
-   world Flow/World_e2e.v, computes exactly the hand-written model functions the C01/C04 theorems are about. *)
-From V Require Import Prelude.Base Prelude.PyAst Prelude.PyWorld gen.F_e2e.
+(* Tie theorems (encrypt side: cek_encrypt, content_encrypt, cek_generate, _encrypt_blob): the regenerated syntax (gen/F_e2e.v),
+   run in the world Flow/World_e2e.v, computes exactly the hand-written model functions the C01/C19 theorems are about.
+   cek_generate and _encrypt_blob run in the world WR, in which the three random draws (AESGCM.generate_key(256), os.urandom(12),
+   the os.urandom inside key.new_kek()) return the explicit arguments rnd_cek rnd_iv rnd_kek of the model functions. *)
+From V Require Import Prelude.Base Prelude.PyAst Prelude.PyWorld gen.F_e2e gen.K_asn1.
 From V Require Import Model.Types Model.Crypto Model.Kek Model.Asn1 Model.Pkcs7 Model.Blob Model.CryptoWrap Model.Client Flow.World_e2e.
 Local Open Scope string_scope.
 Local Open Scope list_scope.
 Local Open Scope Z_scope.
 
-Arguments len : simpl never.
+Local Arguments len : simpl never.
 
 Definition lift (r : res bytes) : res (pv obj) := let* b := r in Ok (VB b).
 
@@ -28,4 +30,49 @@ Proof.
   destruct (read_sequence (x :: p) None None) as [[content rest]|e]; cbn; [|reflexivity].
   destruct (read_octet_string content None None) as [[iv rest']|e]; cbn; [|reflexivity].
   destruct (gcm_enc c cek iv v); reflexivity.
+Qed.
+
+(* ---- cek_generate, _encrypt_blob (world WR) *)
+Definition lift_pair (r : res (bytes * bytes)) : res (pv obj) := let* (a, b) := r in Ok (VT [VB a; VB b]).
+
+Lemma flow_cek_generate c rnd_cek rnd_iv rnd_kek time_ns fuel a :
+  run (WR c rnd_cek rnd_iv rnd_kek time_ns) fuel k_flow_cek_generate [VO (OOid a)] = lift_pair (cek_generate a rnd_cek rnd_iv).
+Proof.
+  unfold cek_generate, lift_pair. cbn. destruct (oid_eqb a _); cbn; reflexivity.
+Qed.
+
+Lemma oid_eqb_refl a : oid_eqb a a = true.
+Proof. induction a as [|x a IH]; cbn [oid_eqb]; [reflexivity|]. rewrite Z.eqb_refl, IH. reflexivity. Qed.
+
+Lemma int16 : pack_int_content 16 = Ok [16].
+Proof. vm_compute. reflexivity. Qed.
+
+(* the GCM parameters as the writer calls build them: two TLVs appended to the child's buffer, wrapped at __exit__ *)
+Lemma gcm_parameters_writer iv :
+  gcm_parameters iv =
+  (let* x := pack_octet_string iv None in let* y := pack_integer 16 None in pack_tlv seq_tag (([] ++ x) ++ y)).
+Proof.
+  unfold gcm_parameters, a_int, pack_integer, pack_octet_string, a_seq, a_octets. change k_gcm_icv_len with 16. rewrite int16.
+  cbn [bind encode]. destruct (pack_tlv _ iv) as [x|e]; cbn [bind]; [|reflexivity].
+  destruct (pack_tlv _ [16]) as [y|e]; cbn [bind]; [|reflexivity].
+  rewrite app_nil_r. reflexivity.
+Qed.
+
+Local Opaque oid_aes256_wrap oid_aes256_gcm pack_tlv pack_octet_string pack_integer blob_pack content_encrypt cek_encrypt new_kek_rnd seq_tag.
+
+(* blob : bytes, key : GroupKeyEnvelope, protection_descriptor : SIDDescriptor(sid) *)
+Lemma flow_encrypt_blob c rnd_cek rnd_iv rnd_kek time_ns fuel data key sid :
+  run (WR c rnd_cek rnd_iv rnd_kek time_ns) fuel k_flow_encrypt_blob [VB data; VO (OEnv key); VO (OSid sid)]
+  = lift (encrypt_blob c rnd_cek rnd_iv rnd_kek data key sid).
+Proof.
+  unfold encrypt_blob, encrypt_blob_fields, lift.
+  unfold cek_generate. rewrite oid_eqb_refl. cbn [bind]. rewrite !(gcm_parameters_writer rnd_iv).
+  cbn. unfold cek_generate. rewrite oid_eqb_refl. cbn.
+  destruct (pack_octet_string rnd_iv None) as [x|e]; cbn; [|reflexivity].
+  destruct (pack_integer 16 None) as [y|e]; cbn; [|reflexivity].
+  destruct (pack_tlv seq_tag _) as [p|e]; cbn; [|reflexivity].
+  destruct (content_encrypt c _ _ rnd_cek data) as [ec|e]; cbn; [|reflexivity].
+  destruct (new_kek_rnd c key rnd_kek) as [[kek kid]|e]; cbn; [|reflexivity].
+  destruct (cek_encrypt c _ _ kek rnd_cek) as [ek|e]; cbn; [|reflexivity].
+  destruct (blob_pack _ true); reflexivity.
 Qed.
